@@ -99,6 +99,11 @@ def vector_trees(env, max_nodes):
     joins (A),(B) of two scalar trees within the same bound."""
     S, V = enumerate_trees(env, max_nodes)
     out = [t for k in range(2, max_nodes + 1) for t in V[k]]
+    # functions whose result is the parameter itself or a structural view of a small vector tree (identity, reverse, drop,
+    # take): no arithmetic produces a fresh array, so the result may alias the point being perturbed
+    out.extend(V[1])
+    for k in range(1, min(2, max_nodes - 1) + 1):
+        out.extend(('view', w, e) for e in V[k] for w in dual.VIEWS)
     for i in range(1, max_nodes - 1):
         for j in range(1, max_nodes - i):
             out.extend(('join', a, b) for a in S[i] for b in S[j])
@@ -149,6 +154,8 @@ def kl(t):
         return "(%s'%s)" % (dual.LAMBDAS[t[1]][0], kl(t[2]))
     if k == 'join':
         return '(%s,%s)' % (kl(t[1]), kl(t[2]))
+    if k == 'view':
+        return {'rev': '(|%s)', 'drop1': '(1_%s)', 'take2': '(2#%s)'}[t[1]] % kl(t[2])
     raise ValueError(t)
 
 
